@@ -1738,9 +1738,8 @@ def reduce_sum(a, axis=None, keepdims=False):
     if not sym_axes:
         k = a.kind if a.kind != "bool" else "int"
         return reduce_generic(a, axis, keepdims, lambda p, q: _bool_to_num(p) + _bool_to_num(q), 0, kind=k)
-    from .sigma import sigma_reduce
-
-    return sigma_reduce(a, axes, keepdims)
+    # sums over symbolic extents would need the Sigma-calculus of DESIGN.md 2.6, which was not built (section 10.1)
+    raise Unsupported("sum over an axis of symbolic extent (no Sigma-calculus in this engine)")
 
 
 def reduce_mean(a, axis=None, keepdims=False):
